@@ -152,6 +152,8 @@ pub(crate) struct NdDev {
     /// large-buffer mode: reads of more than 4 bytes do not touch the buffer (its content is irrelevant to
     /// address/length contracts) and may be short by any amount, so buffer lengths can be fully symbolic
     pub nofill: bool,
+    /// smallest request that is not filled in nofill mode
+    pub nofill_min: usize,
     /// predicate assumed of every small (<= 4 byte) read: (position, bytes, length) -> allowed.
     /// Used to state "cluster pointers on the volume are valid" as an assumption on device content.
     pub small_read_ok: Option<fn(u64, [u8; 4], usize) -> bool>,
@@ -186,6 +188,7 @@ impl NdDev {
             eoc_after: 0,
             nreads: 0,
             nofill: false,
+            nofill_min: 5,
             small_read_ok: None,
             track_lo: 0,
             track_hi: u64::MAX,
@@ -286,8 +289,8 @@ impl Read for NdDev {
     fn read(&mut self, buf: &mut [u8]) -> Result<usize, DevErr> {
         self.maybe_fault()?;
         let mut n = buf.len();
-        if self.nofill && n > 4 {
-            let k: usize = kani::any();
+        if self.nofill && n >= self.nofill_min {
+            let k: usize = if self.short_io { kani::any() } else { n };
             kani::assume(k <= n);
             self.push(Op::Read(self.pos, n));
             self.pos += k as u64;
@@ -330,8 +333,8 @@ impl Write for NdDev {
         if self.short_io && n > 1 && kani::any() {
             n = 1;
         }
-        if self.nofill && n > 4 {
-            let k: usize = kani::any();
+        if self.nofill && n >= self.nofill_min {
+            let k: usize = if self.short_io { kani::any() } else { n };
             kani::assume(k <= n);
             self.push(Op::Write(self.pos, n));
             self.nwrites += 1;
